@@ -82,7 +82,7 @@ def run(ctx):
                 tables.append(("translate c=%d" % (sg * c), ["-lift", "translate", "-c", str(sg * c), "-d", str(-sg * c + rng.randrange(-5, 6))],
                                ["add", "sub", "unite", "intersect"]))
         for k in [0] + exps:
-            for k2 in ([0] + exps if k in (0, 31, 32, 63, 64) else [rng.choice([0] + exps)]):
+            for k2 in (sorted({0, 31, 64, k}) if k in (0, 31, 32, 63, 64) else [rng.choice([0] + exps)]):
                 if k == 0 and k2 == 0:
                     continue
                 tables.append(("scale k=%d,%d" % (k, k2), ["-lift", "scale", "-k", str(k), "-k2", str(k2)], ["mul", "quo", "lsh", "rsh"]))
